@@ -18,6 +18,15 @@ pub struct TyEntry {
     pub none: fn() -> String,
     /// answer of the *unwrapped* inner type on the same item, when this entry is a wrapper
     pub depth: usize,
+    /// external grammar parsers whose verdict on string literals the model needs (oracle rows)
+    pub kinds: Vec<&'static str>,
+}
+
+impl TyEntry {
+    pub fn with_kinds(mut self, k: &[&'static str]) -> Self {
+        self.kinds = k.to_vec();
+        self
+    }
 }
 
 fn run_meta<T: FromMeta + Canon>(m: &Meta) -> String {
@@ -35,7 +44,7 @@ fn run_none<T: FromMeta + Canon>() -> String {
 }
 
 pub fn mk<T: FromMeta + Canon>(ty: Sx, depth: usize) -> TyEntry {
-    TyEntry { ty, meta: run_meta::<T>, nested: run_nested::<T>, none: run_none::<T>, depth }
+    TyEntry { ty, meta: run_meta::<T>, nested: run_nested::<T>, none: run_none::<T>, depth, kinds: vec![] }
 }
 
 pub fn int_ty(name: &str) -> Sx {
@@ -100,9 +109,16 @@ macro_rules! wrap2 {
 
 macro_rules! inner_all {
     ($v:ident, $t:ty, $sx:expr) => {
+        inner_all!($v, $t, $sx, &[]);
+    };
+    ($v:ident, $t:ty, $sx:expr, $kinds:expr) => {
+        let start = $v.len();
         $v.push(mk::<$t>($sx, 0));
         wrap1!($v, $t, $sx, 1);
         wrap2!($v, $t, $sx);
+        for e in $v[start..].iter_mut() {
+            e.kinds = $kinds.to_vec();
+        }
     };
 }
 
@@ -116,5 +132,99 @@ pub fn wrapper_grid() -> Vec<TyEntry> {
     inner_all!(v, char, atom("char"));
     inner_all!(v, (), atom("unit"));
     inner_all!(v, Flag, atom("flag"));
+    inner_all!(v, syn::Path, atom("syn-path"), &["Path"]);
+    inner_all!(v, syn::Ident, atom("syn-ident"), &["Ident"]);
+    inner_all!(v, syn::Expr, atom("syn-expr"), &["Expr"]);
+    inner_all!(v, syn::LitStr, tagged("lit-kind", vec![st("Str")]));
+    inner_all!(v, darling::util::PathList, atom("path-list"));
+    inner_all!(
+        v,
+        std::collections::HashMap<String, String>,
+        tagged("map", vec![st("hash_map"), st("String"), atom("string")])
+    );
+    v
+}
+
+fn k1(ty: TyEntry, kinds: &[&'static str]) -> TyEntry {
+    ty.with_kinds(kinds)
+}
+
+macro_rules! syn_parse_tys {
+    ($v:ident; $($t:ident),*) => { $(
+        $v.push(k1(mk::<syn::$t>(tagged("syn-parse", vec![st(stringify!($t))]), 0), &[stringify!($t)]));
+    )* };
+}
+
+/// every syntax-valued implementor of core/src/from_meta.rs and core/src/util (C13)
+pub fn syn_types() -> Vec<TyEntry> {
+    use darling::util::{Callable, IdentString, Ignored, PathList};
+    let mut v = vec![];
+    v.push(k1(mk::<syn::Expr>(atom("syn-expr"), 0), &["Expr"]));
+    v.push(k1(mk::<syn::Path>(atom("syn-path"), 0), &["Path"]));
+    v.push(k1(mk::<syn::Ident>(atom("syn-ident"), 0), &["Ident"]));
+    v.push(k1(mk::<IdentString>(atom("ident-string"), 0), &["Ident"]));
+    v.push(k1(mk::<syn::ExprArray>(tagged("syn-expr-ty", vec![st("ExprArray")]), 0), &["ExprArray"]));
+    v.push(k1(mk::<syn::ExprPath>(tagged("syn-expr-ty", vec![st("ExprPath")]), 0), &["ExprPath"]));
+    v.push(k1(mk::<syn::ExprRange>(tagged("syn-expr-ty", vec![st("ExprRange")]), 0), &["ExprRange"]));
+    syn_parse_tys!(v; Type, TypeArray, TypeBareFn, TypeGroup, TypeImplTrait, TypeInfer, TypeMacro, TypeNever, TypeParam,
+        TypeParen, TypePath, TypePtr, TypeReference, TypeSlice, TypeTraitObject, TypeTuple, Visibility, WhereClause);
+    v.push(k1(mk::<Vec<syn::WherePredicate>>(atom("where-preds"), 0), &["WherePreds"]));
+    v.push(mk::<ident_case::RenameRule>(atom("rename-rule"), 0));
+    v.push(k1(
+        mk::<syn::punctuated::Punctuated<syn::Path, syn::Token![,]>>(tagged("punctuated", vec![st("PunctPathComma")]), 0),
+        &["PunctPathComma"],
+    ));
+    v.push(mk::<syn::Lit>(atom("lit"), 0));
+    v.push(mk::<syn::LitInt>(tagged("lit-kind", vec![st("Int")]), 0));
+    v.push(mk::<syn::LitFloat>(tagged("lit-kind", vec![st("Float")]), 0));
+    v.push(mk::<syn::LitStr>(tagged("lit-kind", vec![st("Str")]), 0));
+    v.push(mk::<syn::LitByte>(tagged("lit-kind", vec![st("Byte")]), 0));
+    v.push(mk::<syn::LitByteStr>(tagged("lit-kind", vec![st("ByteStr")]), 0));
+    v.push(mk::<syn::LitChar>(tagged("lit-kind", vec![st("Char")]), 0));
+    v.push(mk::<syn::LitBool>(tagged("lit-kind", vec![st("Bool")]), 0));
+    v.push(mk::<proc_macro2::Literal>(tagged("lit-kind", vec![st("Verbatim")]), 0));
+    v.push(k1(mk::<Vec<syn::LitInt>>(tagged("vec-lit", vec![st("Int")]), 0), &["Arr"]));
+    v.push(k1(mk::<Vec<syn::LitFloat>>(tagged("vec-lit", vec![st("Float")]), 0), &["Arr"]));
+    v.push(k1(mk::<Vec<syn::LitStr>>(tagged("vec-lit", vec![st("Str")]), 0), &["Arr"]));
+    v.push(k1(mk::<Vec<syn::LitByte>>(tagged("vec-lit", vec![st("Byte")]), 0), &["Arr"]));
+    v.push(k1(mk::<Vec<syn::LitByteStr>>(tagged("vec-lit", vec![st("ByteStr")]), 0), &["Arr"]));
+    v.push(k1(mk::<Vec<syn::LitChar>>(tagged("vec-lit", vec![st("Char")]), 0), &["Arr"]));
+    v.push(k1(mk::<Vec<syn::LitBool>>(tagged("vec-lit", vec![st("Bool")]), 0), &["Arr"]));
+    v.push(k1(mk::<Vec<proc_macro2::Literal>>(tagged("vec-lit", vec![st("Verbatim")]), 0), &["Arr"]));
+    v.push(k1(mk::<Vec<u8>>(tagged("num-array", vec![st("u8")]), 0), &["Arr"]));
+    v.push(k1(mk::<Vec<u16>>(tagged("num-array", vec![st("u16")]), 0), &["Arr"]));
+    v.push(k1(mk::<Vec<u32>>(tagged("num-array", vec![st("u32")]), 0), &["Arr"]));
+    v.push(k1(mk::<Vec<u64>>(tagged("num-array", vec![st("u64")]), 0), &["Arr"]));
+    v.push(k1(mk::<Vec<usize>>(tagged("num-array", vec![st("usize")]), 0), &["Arr"]));
+    v.push(mk::<syn::Meta>(atom("syn-meta"), 0));
+    v.push(mk::<Ignored>(atom("ignored"), 0));
+    v.push(mk::<PathList>(atom("path-list"), 0));
+    v.push(mk::<Callable>(atom("callable"), 0));
+    v
+}
+
+fn map_ty(kind: &str, key: &str, v: Sx) -> Sx {
+    tagged("map", vec![st(kind), st(key), v])
+}
+
+macro_rules! maps_for {
+    ($v:ident, $t:ty, $sx:expr, $kinds:expr) => {
+        $v.push(k1(mk::<std::collections::HashMap<String, $t>>(map_ty("hash_map", "String", $sx), 0), $kinds));
+        $v.push(k1(mk::<std::collections::HashMap<syn::Ident, $t>>(map_ty("hash_map", "syn::Ident", $sx), 0), $kinds));
+        $v.push(k1(mk::<std::collections::HashMap<syn::Path, $t>>(map_ty("hash_map", "syn::Path", $sx), 0), $kinds));
+        $v.push(k1(mk::<std::collections::BTreeMap<String, $t>>(map_ty("btree_map", "String", $sx), 0), $kinds));
+        $v.push(k1(mk::<std::collections::BTreeMap<syn::Ident, $t>>(map_ty("btree_map", "syn::Ident", $sx), 0), $kinds));
+    };
+}
+
+/// the five `map!` instantiations × value types (C14)
+pub fn map_types() -> Vec<TyEntry> {
+    let mut v = vec![];
+    maps_for!(v, bool, atom("bool"), &[]);
+    maps_for!(v, u8, int_ty("u8"), &[]);
+    maps_for!(v, String, atom("string"), &[]);
+    maps_for!(v, syn::Expr, atom("syn-expr"), &["Expr"]);
+    maps_for!(v, std::collections::HashMap<String, u8>, map_ty("hash_map", "String", int_ty("u8")), &[]);
+    maps_for!(v, Option<u8>, tagged("option", vec![int_ty("u8")]), &[]);
     v
 }
